@@ -255,6 +255,7 @@ func Array[V any](arguments ...any) col.ArrayLike[V] {
 	// Initialize the possible arguments.
 	var notation = CDCN()
 	var size uint
+	var hasSize bool
 	var values []V
 	var sequence col.Sequential[V]
 	var source string
@@ -264,8 +265,10 @@ func Array[V any](arguments ...any) col.ArrayLike[V] {
 		switch actual := argument.(type) {
 		case int:
 			size = uint(actual)
+			hasSize = true
 		case uint:
 			size = actual
+			hasSize = true
 		case []V:
 			values = actual
 		case string:
@@ -293,9 +296,9 @@ func Array[V any](arguments ...any) col.ArrayLike[V] {
 	var class = col.Array[V](notation)
 	var array col.ArrayLike[V]
 	switch {
-	case size > 0:
+	case hasSize:
 		array = class.Make(size)
-	case len(values) > 0:
+	case values != nil:
 		array = class.MakeFromArray(values)
 	case sequence != nil:
 		array = class.MakeFromSequence(sequence)
@@ -304,7 +307,7 @@ func Array[V any](arguments ...any) col.ArrayLike[V] {
 		// Convert the values to their real type.
 		size = uint(collection.GetSize())
 		array = class.Make(size)
-		var index int = 0
+		var index int = 1 // Indices are ORDINAL based.
 		var iterator = collection.GetIterator()
 		for iterator.HasNext() {
 			var value = iterator.GetNext().(V)
